@@ -118,6 +118,30 @@ MUTANTS = [
     ("C08", "R08d", "multiset.py", "                        to_remove_from.append((f, num_matched))\n                        break\n", "                        to_remove_from.append((f, num_matched))\n                        break\n                    elif t.key > f.key:\n                        num_matched = 0\n                        break\n", "sorted-order early exit in the key lookup"),
     ("C06", "E5d", "json.py", "        self.parent.print(*args, with_edits=False, **kwargs)\n", "        self.parent.print(*args, **kwargs)\n", "original defect: forwarded node re-enables its edit"),
     ("C02", "R03a", "sequences.py", "        for edit in self.edits():\n            b = edit.bounds()", "        for edit in self._sub_edits:\n            b = edit.bounds()", "tail removals/insertions not counted"),
+    # ---- added after round 3
+    ("C03", "R03i", "levenshtein.py", "            (Match(from_node, to_node, 0) for from_node, to_node in self.shared_prefix),", "            (from_node.edits(to_node) for from_node, to_node in self.shared_prefix),", "prefix pairs listed with a computed edit"),
+    ("C13", "H6b", "graphtage.py", "        return self.__class__({kvp.key: kvp for kvp in children})", "        return self.__class__.from_dict({kvp.key: kvp.value for kvp in children})", "copy_from re-wraps adopted nodes"),
+    ("C13", "H11", "plist.py", "        printer.write(f\"<string>{node.object}</string>\")", "        self.write_obj(printer, node.object)", "string leaf through a value-partial encoder"),
+    ("C04", "R04g", "levenshtein.py", "                max(base_bounds.lower_bound, min(min(\n                    int(self.costs[row][col]) for row, col in self._fringe_diagonal()\n                ), min(\n                    int(self.costs[row][col]) for row, col in self._last_fringe\n                ))),", "                max(base_bounds.lower_bound, min(\n                    int(self.costs[row][col]) for row, col in self._last_fringe\n                )),", "lower bound over one anti-diagonal"),
+    ("C04", "R04h", "levenshtein.py", "                return ret or self.bounds().upper_bound < initial_bounds.upper_bound or \\\n                    self.bounds().lower_bound > initial_bounds.lower_bound\n", "                return ret\n", "original defect: completion reports no progress"),
+    ("C17", "R17d", "search.py", "                            self._untightened.clear()\n                            self._tightened.push(untightened)", "                            self._untightened.clear()\n                            self._tightened.clear()\n                            self._tightened.push(untightened)", "definitive heap cleared outside the goal branch"),
+    ("C17", "R17e", "search.py", "        elif self.initial_bounds.upper_bound < node.item.bounds().lower_bound:", "        elif self.initial_bounds.dominates(node.item.bounds()):", "original defect: pruning on a tie"),
+    ("C19", "R19f", "expressions.py", "    if issubclass(type(obj), INTROSPECTION_TYPES):  # not isinstance(): that falls back to reading obj.__class__\n", "    if False:\n", "interpreter-object guard disabled"),
+    ("C19", "R19g", "expressions.py", "    GETITEM = ('[', 1, lambda a, b: get_item(a, b))", "    GETITEM = ('[', 1, lambda a, b: a[b])", "original defect: direct subscript"),
+    ("C18", "R18h", "pydiff.py", "    def __eq__(self, other):\n        return isinstance(other, PyObj) and self.class_name == other.class_name and self.attrs == other.attrs\n\n    def __hash__(self):\n        return hash((self.class_name, self.attrs))\n\n", "", "original defect: PyObj without structural equality"),
+    ("C18", "R18g", "json.py", "    elif python_obj is None:\n        # a null is a leaf, too: it is a legal mapping key in YAML (`~: 1`)\n        return NullNode()\n    elif force_leaf_node:", "    elif force_leaf_node:", "SKIP"),
+    ("C10", "R10a", "graphtage.py", "        return self.__class__(\n            children,\n            allow_list_edits=self.allow_list_edits,\n            allow_list_edits_when_same_length=self.allow_list_edits_when_same_length\n        )", "        return self.__class__(children)", "original defect: copy drops the list options"),
+    ("C10", "R10a", "pydiff.py", "        return Module(\n            tuple(children),\n            allow_list_edits=self.options.allow_list_edits,\n            allow_list_edits_when_same_length=self.options.allow_list_edits_when_same_length\n        )", "        return Module(tuple(children))", "original defect: AST builder ignores list options"),
+    ("C14", "R14f", "printer.py", "        return False\n\n    def flush(self):\n        pass\n", "        return True\n\n    def flush(self):\n        pass\n", "original defect: NullWriter claims a terminal"),
+    ("C16", "R16h", "fibonacci.py", "        if not isinstance(k, ReversedComparator):\n            k = ReversedComparator(k)\n        super().decrease_key(x, k)", "        super().decrease_key(x, k)", "override no longer wraps the key"),
+    ("C09", "R09f", "json.py", "        with open(path, 'rb') as f:\n            return build_tree(json.load(f), options)", "        with open(path) as f:\n            return build_tree(json.load(f), options)", "original defect: text-mode JSON"),
+    ("C05", "R05f", "edits.py", "            for sub_edit in itertools.islice(self._sub_edits, num_yielded, None):\n                num_yielded += 1\n                yield sub_edit\n            if self._expand_edits() is None and num_yielded >= len(self._sub_edits):\n                break", "            nxt = self._expand_edits()\n            if nxt is None:\n                break\n            yield nxt", "listing yields what it expanded itself"),
+    ("C07", "R07g", "printer.py", "        if self.ansi_color:\n            _init_colorama()", "        if self.ansi_color:\n            colorama.init()", "original defect: colorama.init per Printer"),
+    ("C07", "R07h", "yaml.py", "            printer.indent_str = previous_indent\n\n    @staticmethod\n    def write_obj(printer: Printer, obj):\n        if obj == '':", "            pass\n\n    @staticmethod\n    def write_obj(printer: Printer, obj):\n        if obj == '':", "indent not restored"),
+    ("C08", "R08e", "graphtage.py", "            return LeafNode._order_key(self.object) < LeafNode._order_key(other)", "            return str(self.object) < str(other)", "original defect: str fallback order"),
+    ("C02", "R02g", "graphtage.py", "            return self.object == other.object and isinstance(self.object, bool) == isinstance(other.object, bool)", "            return self.object == other.object", "original defect: True == 1"),
+    ("C03", "R03g", "graphtage.py", "        if isinstance(node, NullNode):\n            # A null has size zero, so the edit distance to the text \"None\" can exceed the sizes of both nodes,\n            # which every enclosing edit assumes to bound the cost; replace instead, as NullNode.edits does\n            return Replace(self, node)\n        elif isinstance(node, LeafNode):", "        if isinstance(node, LeafNode):", "original defect: leaf to null priced by text"),
+    ("C15", "R15d", "matching.py", "    if edge_type is None:\n        # There are no edges in the graph\n        return {}\n\n    if has_null_edges:", "    if has_null_edges:", "SKIP"),
 ]
 MUTANTS = [m for m in MUTANTS if m[5] != "SKIP"]
 
